@@ -75,7 +75,7 @@ theorem sim_subrun {n : Nat} (hS : SimS n) {K : SCtx} {k : Ctx} {sub : Bool} {s 
       obtain ⟨_, _, _, _, _, hfn, _⟩ := hp
       simp [subK] at hfn
     | exit =>
-      obtain ⟨_, hr', hs', ho, ht, hcs, _, _, _⟩ := hp
+      obtain ⟨_, hr', hs', ho, ht, hcs, _, _, _, _⟩ := hp
       have htn : e1.trapExit = .nil := by rw [ht]; exact hcs.1 rfl
       simp only [htn, sem_trap_nil hn1, SubRel]
       exact ⟨trivial, hs', ho, hr'⟩
@@ -236,7 +236,7 @@ theorem sim_call {n : Nat} (hS : SimS n) {K : SCtx} {k : Ctx} {sub : Bool} {s : 
       obtain ⟨_, _, _, _, _, _, hlv, _⟩ := hpo
       exact absurd hlv (not_levels_nil _ m rfl)
     | ret =>
-      obtain ⟨h1, h2, h3, h5, _, _, _, _, hex⟩ := hpo
+      obtain ⟨h1, h2, h3, h5, _, _, _, hex⟩ := hpo
       subst h1
       obtain ⟨hd', hf''⟩ := hdyn h2 h3
       by_cases hxx : s1.exit.exiting = true
@@ -245,7 +245,7 @@ theorem sim_call {n : Nat} (hS : SimS n) {K : SCtx} {k : Ctx} {sub : Bool} {s : 
       · exact Or.inl ⟨rfl, hd', hf'', ⟨rfl, by simpa using hxx⟩, h5, fun h => h.elim,
           fun h => by simp [isChecked] at h⟩
     | exit =>
-      obtain ⟨hx', hr', hs', ho, ht, hcs, hht, hce, hnp'⟩ := hpo
-      exact Or.inl ⟨hx', rfl, hs', ho, ht, hcs, hht, hce, hnp'⟩
+      obtain ⟨hx', hr', hs', ho, ht, hcs, hht, hce, hnp', hv'⟩ := hpo
+      exact Or.inl ⟨hx', rfl, hs', ho, ht, hcs, hht, hce, hnp', hv'⟩
 
 end ShVerif.C26
